@@ -6,8 +6,10 @@ import (
 	"fmt"
 	p2p_pb "github.com/celestiaorg/go-header/p2p/pb"
 	"github.com/libp2p/go-libp2p/core/peer"
+	"os"
 	"strings"
 	"sync"
+	"sync/atomic"
 	"time"
 	"verifharness/peers"
 
@@ -437,6 +439,11 @@ func runC19(tier string, r *rng) {
 	for _, ans := range []string{"fail", "ok:20", "ok:15", "ok:40"} {
 		c19HeadRaceStale(20, ans)
 	}
+	if os.Getenv("VERIF_NO_STALEPENDING") == "" {
+		for _, ab := range [][3]int{{20, 23, 24}, {20, 23, 30}, {10, 12, 13}, {20, 40, 41}} {
+			c19StalePending(ab[0], ab[1], ab[2])
+		}
+	}
 }
 
 // c19CancelledOwner: a Head() call whose context is already done happens to own the head request; the calls after it
@@ -472,4 +479,62 @@ func c19CancelledOwner(storeTo int) {
 		slow = 1
 	}
 	emit("C19 kind=cancelledowner store=%d => first=%s head=%s reqs=%d slow=%d", storeTo, errs(err0), res, nreq, slow)
+}
+
+// c19StalePending: caller A of Head() is handed network head `a` and is stopped inside setLocalHead after it read the
+// store head (check) and before it puts `a` into the pending set (act). Caller B then learns the newer head `b`, the
+// sync loop stores everything up to `b` and B returns `b`. A goes on. Afterwards caller C asks again (peers still
+// report `b`). Heights returned by Head() never decrease: C (which starts after B returned) must not get less than B.
+func c19StalePending(storeTo, a, b int) {
+	ctx := context.Background()
+	run := newSyncRun(storeTo)
+	run.s.VerifSetPolicy(100*time.Hour, time.Second, time.Millisecond) // the stored head is never "recent": Head() asks the network
+	var cur atomic.Pointer[vhdr.Header]
+	cur.Store(run.chain[storeTo-1])
+	run.g.headFn = func(*vhdr.Header) (*vhdr.Header, error) { return cur.Load(), nil }
+	sctx, cancel := context.WithTimeout(ctx, 3*time.Second)
+	err := run.s.Start(sctx)
+	cancel()
+	if err != nil {
+		emit("C19 kind=stalepending store=%d a=%d b=%d => start=err", storeTo, a, b)
+		return
+	}
+	run.quiesce()
+	c := run.chain[a-1]
+	gated := &vhdr.Header{Chain: c.Chain, H: c.H, T: c.T, Prev: c.Prev, Salt: c.Salt, VK: c.VK,
+		ParkIn: "setLocalHead", ParkDirect: true, ParkSkip: 1, Parked: make(chan struct{}), Release: make(chan struct{})}
+	cur.Store(gated)
+	headOnce := func(d time.Duration) string {
+		hctx, cancelH := context.WithTimeout(ctx, d)
+		defer cancelH()
+		if h, err := run.s.Head(hctx); err == nil && h != nil {
+			return utoa(h.H)
+		}
+		return "err"
+	}
+	adone := make(chan string, 1)
+	go func() { adone <- headOnce(10 * time.Second) }()
+	parked := "yes"
+	select {
+	case <-gated.Parked:
+	case <-time.After(2 * time.Second):
+		parked = "no"
+	}
+	cur.Store(run.chain[b-1])
+	resB := headOnce(5 * time.Second)
+	run.quiesce()
+	close(gated.Release)
+	resA := "hang"
+	select {
+	case resA = <-adone:
+	case <-time.After(5 * time.Second):
+	}
+	run.quiesce()
+	resC := headOnce(5 * time.Second)
+	run.quiesce()
+	emit("C19 kind=stalepending store=%d a=%d b=%d => start=ok parked=%s hb=%s ha=%s hc=%s %s", storeTo, a, b, parked, resB, resA, resC, run.observe())
+	_ = run.s.Stop(ctx)
+	c2, cancel3 := context.WithTimeout(ctx, time.Second)
+	_ = run.st.Stop(c2)
+	cancel3()
 }
